@@ -147,6 +147,16 @@ PLAN["C09"] = {
     "level_note": KANI_NOTE + ARCH_NOTE + " Rayon's splitting policy is over-approximated by arbitrary split indices; real threads are not modelled.",
 }
 
+PLAN["C15"] = {
+    "quick": ["rsrc_q_"],
+    "thorough": ["rsrc_t_"],
+    "bounds": {"quick": "resource lists of 3 pairwise different types, symbolic values, one entity operation (insert, reserve)", "thorough": "plus lists of 0 and 1 resources, clone and clone_from of (entity-free) worlds"},
+    "outside": ["serde round trip of resources", "resource views inside systems/schedules", "three-view orders other than list order and reversed (some rotations are rejected by the type-level reshape and never compile)", "entity histories longer than one operation"],
+    "stubs": ["hashbrown -> /verif/models/hashbrown (E2)", "fnv -> constant hasher"],
+    "level_text": "Bounded model checking with symbolic resource values: get/get_mut/view_resources return the resource of the requested type at every list position and requested order, a write through one handle is read back through every other, insert/reserve leave the resource list bit-for-bit equal, clone copies and clone_from replaces every resource, worlds differing in any resource compare unequal.",
+    "level_note": KANI_NOTE + " The lookup itself is resolved by the type checker; the harnesses execute the resolved code with symbolic values.",
+}
+
 for _p in PLAN.values():
     _p.setdefault("level", "model_checking")
     _p.setdefault("stubs", [])
@@ -154,7 +164,7 @@ for _p in PLAN.values():
     _p.setdefault("explanation", "")
 
 _claimed = set(PLAN)
-for _p in ["C06", "C07", "C08", "C11", "C12", "C15"]:
+for _p in ["C06", "C07", "C08", "C11", "C12"]:
     if _p not in _claimed:
         NOT_APPLICABLE.append({"property_id": _p, "reason": "not claimed yet: the harnesses for this property are still under construction (see DESIGN.md build order)"})
 NOT_APPLICABLE.sort(key=lambda x: x["property_id"])
